@@ -281,6 +281,8 @@ class Interpreter(BaseInterpreter[TContext, TEvent]):
             #    would never cancel these timers, services and actors.
             for actor in list(self._actors.values()):
                 await actor.stop()
+                # 🌐 A stopped actor must not stay addressable by systemId.
+                self._unregister_from_system(actor)
             self._actors.clear()
             await self.task_manager.cancel_all()
             raise  # Re-raise the original exception to the caller.
